@@ -165,4 +165,129 @@ Section PlanRun.
           -- now rewrite <- app_assoc.
           -- rewrite app_length. simpl. lia.
   Qed.
+
+  (* ---- heads of the block suffix and of the pre suffix ---- *)
+  Lemma Blocked_pSfxBlocks s :
+    cur_block sh s 0 = None ->
+    tget (s_g s) GPost = g0 -> p_may_start s GPost = false ->
+    tget (s_g s) GDeferred = g0 -> p_may_start s GDeferred = false -> pphase_eqb (s_ph s) PEnd = false ->
+    Blocked sh s (pSfxBlocks sh o rest).
+  Proof.
+    intros Hc H0 H1 H2 H3 H4. unfold pSfxBlocks, blocksR. destruct (sh_blocks sh) as [|bs bl].
+    - cbn [blocks_run fst snd app pAfterBlocks]. now apply Blocked_pSfxPost.
+    - destruct (blocks_run_cons 0 bs bl) as [E1 _]. rewrite E1.
+      destruct (block_run_sfx o 0 bs) as [E2 _]. rewrite E2. cbn [app]. apply Blocked_cons. now apply FP_block_running.
+  Qed.
+
+  Lemma Blocked_pSfxPre s :
+    cur_block sh s 0 = None ->
+    tget (s_g s) GPre = g0 -> p_may_start s GPre = false ->
+    tget (s_g s) GCont = g0 -> p_may_start s GCont = false ->
+    tget (s_g s) GPost = g0 -> p_may_start s GPost = false ->
+    tget (s_g s) GDeferred = g0 -> p_may_start s GDeferred = false -> pphase_eqb (s_ph s) PEnd = false ->
+    Blocked sh s (pSfxPre sh o rest).
+  Proof.
+    intros. unfold pSfxPre. apply Blocked_Rp; auto. apply Blocked_Rp; auto.
+    destruct (snd (Rp sh o GPre) && snd (Rp sh o GCont)); [now apply Blocked_pSfxBlocks|now apply Blocked_pTailD].
+  Qed.
+
+  (* ---- out of PPre, both initial runs over ---- *)
+  Lemma ppre_out pt im cb b vp vc :
+    closed_as (g_pre gs) (t_pre pt) vp -> closed_as (g_cont gs) (t_cont pt) vc ->
+    tget pt GPost = g0 -> tget pt GDeferred = g0 ->
+    KEnd (img_of (if vp && vc then pSfxBlocks sh o [] else pTailD sh o []) im) ->
+    Acc sh 9 (P_ PPre pt TNone im cb b) (if vp && vc then pSfxBlocks sh o rest else pTailD sh o rest).
+  Proof.
+    intros Hp Hc H0 H1 HK. pose proof (EP_pre sh pt TNone im cb b vp vc Hp Hc) as HE.
+    destruct (vp && vc) eqn:V.
+    - eapply Acc_skip'; [apply Blocked_pSfxBlocks; auto|exact HE|].
+      unfold pSfxBlocks, blocksR in *. apply (blocks_ok (sh_blocks sh) 0 []); auto.
+      apply andb_true_iff in V as [_ ->]. unfold ThrOK. destruct (g_cont gs); cbn [present closed_as] in *; auto.
+    - eapply Acc_skip'; [apply Blocked_pTailD; auto|exact HE|].
+      eapply Acc_mono with (f := 3); [lia|]. apply ppos_deferred; auto. now left.
+  Qed.
+
+  (* ---- pre and the initial continuous run ---- *)
+  Lemma ppos_pre pt im cb b :
+    tget pt GPre = g0 -> tget pt GCont = g0 -> tget pt GPost = g0 -> tget pt GDeferred = g0 ->
+    KEnd (img_of (pSfxPre sh o []) im) ->
+    Acc sh 9 (P_ PPre pt TNone im cb b) (pSfxPre sh o rest).
+  Proof.
+    intros Hp0 Hc0 H0 H1 HK. unfold pSfxPre in *. rewrite !img_of_app in HK.
+    assert (StepB : forall pt1 im1, closed_as (g_pre gs) (t_pre pt1) (snd (Rp sh o GPre)) ->
+              tget pt1 GCont = g0 -> tget pt1 GPost = g0 -> tget pt1 GDeferred = g0 ->
+              KEnd (img_of (if snd (Rp sh o GPre) && snd (Rp sh o GCont) then pSfxBlocks sh o [] else pTailD sh o [])
+                           (img_of (fst (Rp sh o GCont)) im1)) ->
+              Acc sh 9 (P_ PPre pt1 TNone im1 cb b)
+                (fst (Rp sh o GCont) ++ (if snd (Rp sh o GPre) && snd (Rp sh o GCont) then pSfxBlocks sh o rest else pTailD sh o rest))).
+    { intros pt1 im1 Hp1 Hc1 H01 H11 HK1.
+      destruct (grp_get gs GCont) as [rs|] eqn:Eg.
+      - assert (ER : Rp sh o GCont = grp_run o SPlan GCont rs) by (unfold Rp, opt_grp_run; now rewrite Eg).
+        rewrite ER in *.
+        apply pgrp_Acc; auto. apply AccR_of_Acc. apply Acc_mono with (f := 9); [unfold eps_fuel; lia|].
+        apply ppre_out.
+        + change (t_pre (tset pt1 GCont (GIdle 1 (Some (snd (grp_run o SPlan GCont rs))))))
+            with (tget (tset pt1 GCont (GIdle 1 (Some (snd (grp_run o SPlan GCont rs))))) GPre).
+          rewrite tget_tset_other by discriminate. exact Hp1.
+        + cbn [grp_get] in Eg. rewrite Eg. cbn [closed_as]. apply (tget_tset pt1 GCont).
+        + rewrite tget_tset_other by discriminate. assumption.
+        + rewrite tget_tset_other by discriminate. assumption.
+        + exact HK1.
+      - assert (ER : Rp sh o GCont = ([], true)) by (unfold Rp, opt_grp_run; now rewrite Eg).
+        rewrite ER in *. cbn [fst snd app img_of] in *.
+        apply ppre_out; auto. cbn [grp_get] in Eg. rewrite Eg. reflexivity. }
+    destruct (grp_get gs GPre) as [rs|] eqn:Eg.
+    - assert (ER : Rp sh o GPre = grp_run o SPlan GPre rs) by (unfold Rp, opt_grp_run; now rewrite Eg).
+      rewrite ER in HK. rewrite ER at 1.
+      apply pgrp_Acc; auto. apply AccR_of_Acc. apply Acc_mono with (f := 9); [unfold eps_fuel; lia|]. apply StepB.
+      + rewrite ER. cbn [grp_get] in Eg. rewrite Eg. cbn [closed_as]. apply (tget_tset pt GPre).
+      + rewrite tget_tset_other by discriminate. assumption.
+      + rewrite tget_tset_other by discriminate. assumption.
+      + rewrite tget_tset_other by discriminate. assumption.
+      + rewrite ER. exact HK.
+    - assert (ER : Rp sh o GPre = ([], true)) by (unfold Rp, opt_grp_run; now rewrite Eg).
+      rewrite ER at 1. cbn [fst app]. apply StepB; auto.
+      + rewrite ER. cbn [grp_get] in Eg. rewrite Eg. reflexivity.
+      + assert (Ei : img_of (fst (Rp sh o GPre)) im = im) by (rewrite ER; reflexivity).
+        rewrite Ei in HK. exact HK.
+  Qed.
+
+  (* ---- bypass group ---- *)
+  Lemma ppos_byp im cb b :
+    KEnd (img_of (pSfxByp sh o []) im) ->
+    Acc sh 10 (P_ PBypass gtab0 TNone im cb b) (pSfxByp sh o rest).
+  Proof.
+    intro HK. unfold pSfxByp, pbypassed in *. rewrite img_of_app in HK.
+    destruct (grp_get gs GBypass) as [rs|] eqn:Eg.
+    - assert (ER : Rp sh o GBypass = grp_run o SPlan GBypass rs) by (unfold Rp, opt_grp_run; now rewrite Eg).
+      assert (Eg' : g_bypass gs = Some rs) by exact Eg.
+      rewrite ER, Eg' in *. cbn [present andb] in *.
+      apply pgrp_Acc; auto. apply AccR_of_Acc. apply Acc_mono with (f := 10); [unfold eps_fuel; lia|].
+      set (pt1 := tset gtab0 GBypass (GIdle 1 (Some (snd (grp_run o SPlan GBypass rs))))).
+      set (im1 := img_of (fst (grp_run o SPlan GBypass rs)) im) in *.
+      pose proof (EP_bypass_done sh pt1 TNone im1 cb b rs _ Eg' eq_refl) as HE.
+      destruct (snd (grp_run o SPlan GBypass rs)).
+      + (* bypassed: straight to the end *)
+        eapply Acc_skip'; [now apply Blocked_rest|exact HE|]. cbn [img_of] in HK. apply HK.
+      + eapply Acc_skip'; [apply Blocked_pSfxPre; auto|exact HE|]. now apply ppos_pre.
+    - assert (ER : Rp sh o GBypass = ([], true)) by (unfold Rp, opt_grp_run; now rewrite Eg).
+      assert (Eg' : g_bypass gs = None) by exact Eg.
+      rewrite ER, Eg' in *. cbn [present andb fst app img_of] in *.
+      eapply Acc_skip'; [apply Blocked_pSfxPre; auto|now apply EP_bypass_absent|]. now apply ppos_pre.
+  Qed.
+
+  (* ---- the whole plan, from init ---- *)
+  Lemma plan_ok k :
+    KEnd (img_of (plan_body o sh) []) -> Acc sh k init (plan_body o sh ++ rest).
+  Proof.
+    rewrite plan_body_sfx. intro HK. cbn [app]. rewrite <- pSfxByp_app. cbn [img_of W] in HK.
+    assert (H1 : handle sh init (W OPlan Running 0 false)
+                 = Some (P_ PStart gtab0 TNone (iset [] OPlan (cellv Running 0 false)) 0 b_none)).
+    { reflexivity. }
+    eapply Acc_cons; [exact H1|]. apply AccR_of_Acc.
+    eapply Acc_skip'; [|apply EP_start; unfold ist; now rewrite iget_iset_same|].
+    - unfold pSfxByp. apply Blocked_Rp; auto. destruct (pbypassed sh o); [now apply Blocked_rest|].
+      now apply Blocked_pSfxPre.
+    - eapply Acc_mono; [|apply ppos_byp; exact HK]. lia.
+  Qed.
 End PlanRun.
